@@ -319,6 +319,24 @@ def spec_chain(src, dims, order, grids, tvals, nearest):
     return cur
 
 
+def tie_indices(grid, xs):
+    """targets that are exact mid points between two neighbouring nodes: in nearest mode either node is a
+    correct answer there (the code's choice, np.rint = half to even, is not part of the property)"""
+    g = sorted(Fraction(v) for v in grid)
+    mids = set((g[i] + g[i + 1]) / 2 for i in range(len(g) - 1))
+    return set(j for j, x in enumerate(xs) if Fraction(x) in mids)
+
+
+def blank_rows(a, axis, js):
+    """copy of `a` with the entries at positions js along `axis` set to zero (excluded from a comparison)"""
+    b = np.array(a, dtype="float64", copy=True)
+    if js:
+        sl = [slice(None)] * b.ndim
+        sl[axis] = sorted(js)
+        b[tuple(sl)] = 0.0
+    return b
+
+
 # ---------------------------------------------------------------------------------------------
 # model batches
 # ---------------------------------------------------------------------------------------------
@@ -434,6 +452,7 @@ def stream_enc(ctx, ncases, period_fn=None, periodic_driver=False, grid_fn=None,
             continue
         if mo and mo[0] == "ERR":
             raise C.Infra("model error " + " ".join(mo))
+        ties = tie_indices(xp, xs) if period is None else set()
         for j, x in enumerate(xs):
             mi0, mi1 = int(mo[4 * j]), int(mo[4 * j + 1])
             mfl, mfn = C.unfx(mo[4 * j + 2]), C.unfx(mo[4 * j + 3])
@@ -448,7 +467,7 @@ def stream_enc(ctx, ncases, period_fn=None, periodic_driver=False, grid_fn=None,
                 bad = "indices %s, model %s" % ((i0, i1), (mi0, mi1))
             elif not (C.close(wl1, mfl, 1e-12, 1e-15) and C.close(wl0, 1 - mfl if not isnan(mfl) else NAN, 1e-12, 1e-15)):
                 bad = "linear weights %s, model frac %r" % ((wl0, wl1), mfl)
-            elif not (C.close(wn1, mfn, 0, 0) and C.close(wn0, 1 - mfn if not isnan(mfn) else NAN, 0, 0)):
+            elif j not in ties and not (C.close(wn1, mfn, 0, 0) and C.close(wn0, 1 - mfn if not isnan(mfn) else NAN, 0, 0)):
                 bad = "nearest weights %s, model frac %r" % ((wn0, wn1), mfn)
             # ---- oracle: the bracketing specification, stated on the implementation alone
             obad = None
@@ -600,6 +619,11 @@ def check_axis_variable(ctx, rep, nm, a, axis, grid, xs, nearest, got, model_row
                                     (what, nm, x, grows[j][:6], rows[k][:6]),
                                     dict(rep, variable=nm, target_index=j, target=x))
                     return False
+    ties = tie_indices(grid, xs) if (nearest and period is None) else set()
+    if ties:
+        ctx.tally("nearest-mode ties excluded from the model comparison", len(ties))
+    got = blank_rows(got, axis, ties)
+    want = blank_rows(want, axis, ties)
     bad = close_arrays(got, want, scale)
     if bad is not None:
         ctx.disagree("%s: variable %s differs from the model at flat index %s: impl %r model %r" %
@@ -824,6 +848,9 @@ def stream_grid(ctx, ncases, periodic_driver=False):
                             break
                     if failed:
                         continue
+            if m["nearest"] and any(tie_indices(m["grids"][d], m["tvals"][d]) for d in m["order"]):
+                ctx.tally("grid:nearest-tie, model comparison skipped")
+                continue
             bad = close_arrays(got, want, data_scale(src))
             if bad is not None:
                 ctx.disagree("interpolate_dataset_grid: variable %s differs from the composition of the axis model at flat index %s" % (nm, bad),
@@ -1130,6 +1157,18 @@ def stream_spectra(ctx, ncases):
                     break
             if failed:
                 continue
+        tie_ax, tie_js = None, set()
+        if nearest:
+            tj = {"time": tie_indices(arrays["time"], tt), "frequency": tie_indices(arrays["frequency"], tf)}
+            if len(r) == 1:
+                tie_ax, tie_js = (0 if r[0] == "time" else 1), tj[r[0]]
+            elif any(tj[n_] for n_ in r):
+                ctx.tally("spectrum:nearest-tie, model comparison skipped")
+                continue
+            if tie_js:
+                ctx.tally("nearest-mode ties excluded from the model comparison", len(tie_js))
+                got_e = blank_rows(got_e, tie_ax, tie_js)
+                want_e = blank_rows(want_e, tie_ax, tie_js)
         bad = close_arrays(got_e, want_e, data_scale(arrays["e"]))
         if bad is not None:
             ctx.disagree("%s: variance_density differs from the model at flat index %s" % (rep["op"], bad),
@@ -1142,6 +1181,9 @@ def stream_spectra(ctx, ncases):
                     q = state[ci][nm] / state[ci]["e"]
                 q = np.where(state[ci]["e"] == 0, NAN, q)
                 want = np.where(np.isnan(q), ext, q)
+                if tie_js:
+                    got = blank_rows(got, tie_ax, tie_js)
+                    want = blank_rows(want, tie_ax, tie_js)
                 skip = np.isinf(got) | np.isinf(want)
                 if skip.any():
                     ctx.tally("spectrum:skipped-x/0")
@@ -1156,6 +1198,8 @@ def stream_spectra(ctx, ncases):
                 if (ci, nm) in direct:
                     e_rows, a_rows, ax = direct[(ci, nm)]
                     wa = from_rows(a_rows, list(arrays[nm].shape), ax)
+                    if tie_js:
+                        wa = blank_rows(wa, tie_ax, tie_js)
                     wa = np.where(skip, 0.0, wa)
                     bad = close_arrays(got, wa, 1.0)
                     if bad is not None:
